@@ -20,7 +20,7 @@ def run(chk):
         exe = S.build(cfg)
     except pv.BuildError as e:
         chk.violation(str(e), "harness for C10 does not build against the current source", no_input=True, suffix="txt")
-        return chk.finish()
+        return S.finish(chk)
     fam = S.make_family(exe, S.view_c10)
     thorough = chk.tier == "thorough"
     cases = S.scripted_cases(chk, thorough, "C10")
@@ -36,4 +36,4 @@ def run(chk):
                        % (3 if thorough else 2))
     chk.cov["exhaustive"] = False
     chk.assumptions += S.ASSUMPTIONS
-    return chk.finish()
+    return S.finish(chk)
